@@ -107,9 +107,19 @@ func (vfs *BasePathFS) ToBasePath(path string) string {
 	}
 
 	if vfs.IsAbs(path) {
+		// ".." elements are resolved against the root of the BasePathFS, not of the base file system.
+		// A final "." is kept : RemoveAll refuses such a path.
+		finalDot := len(path) >= 2 && path[len(path)-1] == '.' && vfs.IsPathSeparator(path[len(path)-2])
+
+		path = vfs.Clean(path)
 		vl := avfs.VolumeNameLen(vfs, path)
 
-		return vfs.basePath + path[vl:]
+		basePath := vfs.basePath + path[vl:]
+		if finalDot {
+			basePath = vfs.Join(basePath, ".") + string(vfs.PathSeparator()) + "."
+		}
+
+		return basePath
 	}
 
 	return path
